@@ -43,22 +43,27 @@ CHECKS = {
     "C09": ("abstract interpretation of MIR over a symbolic address (array abstraction of the backing stores) + who-may-write scan",
             "All 2^32 addresses at once: accepted set == the five regions for read and write, errors touch nothing, each region maps injectively "
             "(addr - START) into its own store, read/write agree, plain writes store exactly the written byte once; every other writer of the stores in "
-            "the crate is enumerated. The history clause follows from these frame facts by induction (stated, not mechanised).", "4 C09"),
+            "the crate is enumerated; the 18 CPU access helpers read/write_abs{8,16,24}_{b,w,l} make exactly size byte accesses at EA+i, most significant byte "
+            "first, return the big-endian composition, Ok iff every byte succeeded. The history clause follows from these frame facts by induction (stated).", "4 C09"),
     "C19": ("abstract interpretation of MIR with symbolic address, count and bus-controller registers; BDD equality with the reference cost function",
             "Complete decision table of calc_state_with_addr for the six kinds, all addresses, all ABWCR/ASTCR/WCRH/WCRL/DRCRA values, counts 0-18: "
             "equals the reference (1 / 2 / 2 / 3+w / 4+w, doubled for word kinds on an 8-bit bus), linear in the count, independent of other areas; "
             "calc_state costs at operating_pc and rejects L/M.", "4 C19"),
-    "C10": ("abstract interpretation of try_interrupt (symbolic CCR, queue and entry summarised as effects) + who-may-call / who-may-touch tables",
-            "A request is popped/entered only on traces whose path condition implies CCR.I = 0; entered vector == popped number, once; with I set nothing "
-            "is consumed; interrupt() only from try_interrupt only from run, before fetch, never from inside exec; the queue is touched only by "
-            "push_back/pop_front; requesters pass constants in 1..63. Whole-execution exactly-once delivery is the closure of these, not mechanised.", "4 C10"),
+    "C10": ("abstract interpretation of request_interrupt / try_interrupt over a symbolic controller state + explicit fixpoint over the abstract controller states "
+            "(aux fields x queue emptiness), starvation-cycle search, who-may-call tables",
+            "Inductive over all request/boundary histories at the abstraction (queue = pending / pending>=2 + push/pop effects): in every reachable "
+            "controller state a request is popped/entered only when CCR.I = 0, entered == popped, one pop per boundary, one push of the requested number "
+            "per request, no dropping/merging queue operation, and no cycle of boundaries with I clear and a request pending in which nothing is taken; "
+            "interrupt() only from try_interrupt only from run, before fetch, never from exec; requesters pass constants in 1..63.", "4 C10"),
     "C13": ("abstract interpretation of one generalised iteration of Cpu::run (loop-carried state havocked at the loop header) + call-graph denylist",
             "For all counter values, charges, PCs: error propagation, Ok only at PC == exit address, one time base (3 x charge added to the total, mirrored to "
             "the bus before peripherals, same amount given to peripherals), sync exactly at each 2,000,000 crossing with the new total, counter invariant; "
-            "host-clock taint reaches no guest-visible value or effect argument; no nondeterminism source reachable from run.", "4 C13"),
+            "host-clock taint reaches no guest-visible value or effect argument; no nondeterminism source reachable from run; float->Duration conversions "
+            "are non-negative by construction (sign analysis), so host time cannot panic the run.", "4 C13"),
     "C18": ("abstract interpretation over abstract strings (terms): message loop of run, parse_u8/parse_ioport, send worker; call-chain facts of the channel plumbing",
             "Two consecutive symbolic lines per batch: the second is always fetched unless the first is cmd:stop; keyword dispatch, pause flag function, "
-            "parse rules (3 fields, hex, errors swallowed, no panic), escape order backslash-then-newline + terminator, one write+flush per message.", "4 C18"),
+            "parse rules (3 fields, hex, errors swallowed, no panic), written text == escape(m)+newline (replace-chain term, or per-element transducer "
+            "check over all byte / scalar values for piecewise-built text), one write+flush per message.", "4 C18"),
     "C16": ("abstract interpretation of the three port handlers over array abstractions (symbolic port number and values); cofactor test",
             "Per bit, all values, all 11 ports: stored DR after DR/DDR/pin events, pin recording, isolation of the port's three cells, invalid ports "
             "ignored, every step announces DR'&DDR' with the current state count or leaves the driven value unchanged; latch retention refuted by a "
@@ -70,7 +75,8 @@ CHECKS = {
     "C14": ("abstract interpretation of the MES gate with the copy loop generalised at its header (base case, inductive step, exit), byte vectors/strings as terms",
             "Dispatch on ER0 (104/113/else error); write: argument block at ER1+0/4/8, loop invariant 'vector == bytes buffer[0..i)', one byte read at "
             "buffer+i and appended per iteration, exit exactly at i == length, same text printed once and sent once, no register/CCR/PC/memory write; "
-            "set_handler: store at 4*v only for 1<=v<=63 with the handler address in the low 24 bits. Byte-exact output follows by induction (stated).", "4 C14"),
+            "set_handler: store at 4*v only for 1<=v<=63 with the handler address in the low 24 bits; no UTF-8 validation of a data-independent part of "
+            "the buffer. Byte-exact output follows by induction (stated).", "4 C14"),
     "C15": ("abstract interpretation of every body reachable from run (panic branch path conditions as BDDs) + obligation census with allow-list + call-graph rules",
             "Every Assert terminator and panicking call site (441 sites, 402 bodies) is either shown infeasible in all analysed contexts, reported with a "
             "concrete witness, or allow-listed with a reason; unanalysed bodies with obligations fail closed; cost-function contexts constant and bounded; "
@@ -78,11 +84,14 @@ CHECKS = {
     "C11": ("abstract interpretation of the ELF parsers over an abstract cursor and of elf::load with loops generalised at their headers (typed havoc)",
             "Every Ehdr/Phdr/Shdr/Sym field is the big-endian integer at its ELF32 offset; PT_LOAD <=> p_type 1; a copy happens exactly for PT_LOAD headers "
             "from file[p_offset..+p_filesz) to DRAM H'416900+p_vaddr, no other store; GOT: only for .got, entry i read big-endian at H'416900+sh_addr+4i, "
-            "base added once, written back to the same bytes, sh_size/4 iterations, ER5. Whole-file byte presence / zero fill follow from these (stated).", "4 C11"),
+            "base added once, written back to the same bytes, sh_size/4 iterations from entry 0 (symbolic i), no guard skips a non-empty .got, ER5; the loops "
+            "iterate the complete file tables (count(parser, e_phnum/e_shnum) at e_phoff/e_shoff, element-preserving adaptors only). Whole-file byte "
+            "presence / zero fill follow from these (stated).", "4 C11"),
     "C12": ("abstract interpretation of elf::load with loops generalised at their headers; layout formulas compared as BDD bit-vectors",
             "ER2 = base; image end only from headers tested PT_LOAD (max of p_paddr+p_memsz); ER7 = align4up(base+image end+size)-8; argument block at "
             "align4up(stack end+88); ER0 = vector length after inserting prog.elf at 0; ER1; argc+1 slots; per-argument slot/byte/NUL steps; exit address "
-            "= st_value+base only for ___exit via the sh_link string table. In-DRAM bounds and the word count itself are not decided.", "4 C12"),
+            "= st_value+base only for ___exit via the sh_link string table, over every symbol of the table (sh_size/sh_entsize records at sh_offset, no "
+            "lossy adaptor). In-DRAM bounds and the word count itself are not decided.", "4 C12"),
 }
 
 checks = []
@@ -110,7 +119,8 @@ m = {
         {"name": "h8lint", "path": "engine/h8lint", "serves_properties": [p["id"] for p in props], "kind_free_text": "Python abstract interpreter (BDD bit-vector domain), CFG/call-graph/effect rules over the MIR facts, reference tables"},
     ],
     "checks": checks,
-    "notes": "Static analysis only (DESIGN.md). Genuine defects found are repaired by fix: commits in /repo or listed in known_findings.json.",
+    "notes": "Static analysis only (DESIGN.md). quick = the rule on the dev-profile MIR of /repo's working tree; thorough = quick + the same rule on the release-profile MIR + "
+             "mutation controls (selftest/*.patch applied to scratch copies of the working tree: seeded faults must be reported, benign variants must stay silent). Genuine defects found are repaired by fix: commits in /repo or listed in known_findings.json.",
     "not_applicable": na,
 }
 json.dump(m, open(os.path.join(VERIF, "MANIFEST.json"), "w"), indent=1)
